@@ -64,6 +64,14 @@ Section Run.
   Variable engine : bytes -> outcome.        (* patchRunner.Apply + format.Node *)
   Variable process : bytes -> bytes + bytes. (* imports.Process(FormatOnly) *)
 
+  (* what imports.Process returns has been through the printer once more: it is parsed before it is
+     emitted, like what was given to it (repo fix 72f3dbc) *)
+  Definition checked (b : bytes + bytes) : bytes + bytes :=
+    match b with
+    | inl bs => match parses bs with None => inl bs | Some m => inr m end
+    | inr m => inr m
+    end.
+
   Variable o : opts.
 
   Definition st0 : result :=
@@ -118,7 +126,7 @@ Section Run.
                 let final :=
                   if o_skip_imports o
                   then match parses fmt with None => inl fmt | Some m => inr m end
-                  else process fmt in
+                  else checked (process fmt) in
                 match final with
                 | inr m => fail r (ErrReformat (t_abs t) m)
                 | inl bs =>
@@ -178,7 +186,7 @@ Section Run.
       | NoMatch => inl src
       | ReplaceErr m => inr m
       | Matched _ (inr m) => inr m
-      | Matched _ (inl fmt) => process fmt
+      | Matched _ (inl fmt) => checked (process fmt)
       end
     end.
 End Run.
